@@ -721,6 +721,20 @@ Definition gen_step_root (id : nat) (root : param) (o : op) : param * out :=
       | Val (RDict ch) => (root, OMapKeys (map pkey ch))
       | Raise e => (root, ORaise e)
       end
+  | OReAdd src dst =>
+      (* p = root.get(src); par = root | root.get(dst); par.add(p) through the generated add *)
+      match gen_InputParameterMap_get (fuel_of src) root src with
+      | Raise e => (root, ORaise e)
+      | Val p =>
+          match gen_parent root dst with
+          | Raise e => (root, ORaise e)
+          | Val par =>
+              match (match dst with None => gen_call_model_add p par | Some _ => gen_call_add p par end) with
+              | MExn e _ => (root, ORaise e)
+              | MOk _ _ => (root, OOutside)
+              end
+          end
+      end
   | OInspect path =>
       match gen_InputParameterMap_get (fuel_of path) root path with
       | Val (Leaf h ro c _ _) => (root, ODecl ro (h_prio h) (Some c))
@@ -801,7 +815,7 @@ Qed.
 
 Theorem gen_step_root_eq : forall id root o, gen_step_root id root o = step_root_lit repaired id root o.
 Proof.
-  intros id root o. destruct o as [path v | pp s | pp s | path | path | path v | path | path];
+  intros id root o. destruct o as [path v | pp s | pp s | path | path | path v | path | src dst | path];
     unfold gen_step_root, step_root_lit; cbn [repaired q_model_set_attr q_register_first].
   - (* OSet *)
     rewrite (gen_InputParameterMap_get__upd_eq (set_value repaired v)) by (intro x; apply gen_dispatch_set_value_eq).
@@ -832,6 +846,12 @@ Proof.
     rewrite gen_DSOLModel_set_parameter_eq. destruct (py_modify _ root path); reflexivity.
   - (* OModelGet *)
     rewrite gen_DSOLModel_get_parameter_eq. destruct (py_get root path) as [[h ro c d v | h ch]|e]; reflexivity.
+  - (* OReAdd *)
+    rewrite gen_InputParameterMap_get_eq. change (get_lit (fuel_of src) root src) with (py_get root src).
+    destruct (py_get root src) as [p|e]; [|reflexivity].
+    rewrite gen_parent_eq. destruct (py_parent root dst) as [par|e]; [|reflexivity].
+    destruct dst as [k|]; [rewrite gen_call_add_eq | rewrite gen_call_model_add_eq];
+      unfold mlift, mres_of; destruct (map_add p par); reflexivity.
   - (* OInspect *)
     rewrite gen_InputParameterMap_get_eq. reflexivity.
 Qed.
